@@ -1023,4 +1023,209 @@ theorem c05_level (s : State) (U : List Nat) (H c : Nat) (hU : Side s U)
       exact Ext.trans (Ext.trans (ext_foldl _ ext_pull _ _) (ext_deliverAll _)) (ext_forAll _ _ ext_pull)
     exact Nat.le_trans hstep (hrest.head j)
 
+
+/-! ### below the threshold nothing new is produced -/
+
+/-- node level: the head is at most `H` and every cached partial on a round above `H` was signed by a member of `D` -/
+def BelowN (n H : Nat) (D : List Nat) (d : Node) : Prop :=
+  d.head ≤ H ∧ ∀ r k, d.held r k = true → H < r → k < n → k ∈ D
+
+/-- `D` lists the nodes that may still sign (the running ones), `H` bounds every head, and every partial in play for a
+round above `H` comes from `D` -/
+structure Below (s : State) (D : List Nat) (H : Nat) : Prop where
+  node : ∀ i, BelowN s.n H D (s.node i)
+  ups : ∀ i, i < s.n → (s.node i).up = true → i ∈ D
+  msgs : ∀ m ∈ s.msgs, H < m.round → m.src < s.n → m.src ∈ D
+
+theorem below_aggregate {n thr H : Nat} {D : List Nat} {d : Node} (hD : D.length < thr) (hb : BelowN n H D d)
+    (src r : Nat) (hs : H < r → src < n → src ∈ D) : BelowN n H D (d.aggregate n thr src r) := by
+  obtain ⟨hh, hheld⟩ := hb
+  have hadd : ∀ r' k, addPartial d.held r src r' k = true → H < r' → k < n → k ∈ D := by
+    intro r' k hk hr hkn
+    simp only [addPartial, Bool.or_eq_true, Bool.and_eq_true, decide_eq_true_eq] at hk
+    rcases hk with ⟨h1, h2⟩ | hk
+    · subst h1; subst h2; exact hs hr hkn
+    · exact hheld r' k hk hr hkn
+  have hfl : ∀ r' k, flush (addPartial d.held r src) r r' k = true → H < r' → k < n → k ∈ D := by
+    intro r' k hk
+    simp only [flush, Bool.and_eq_true] at hk
+    exact hadd r' k hk.2
+  rcases aggregate_cases n thr d src r with ⟨_, he⟩ | ⟨_, _, he⟩ | ⟨_, _, _, he⟩ | ⟨hcnt, hr, he⟩ <;> rw [he]
+  · exact ⟨hh, hheld⟩
+  · exact ⟨hh, hadd⟩
+  · exact ⟨hh, hfl⟩
+  · have hrH : r ≤ H := by
+      by_cases hle : r ≤ H
+      · exact hle
+      · exfalso
+        have := count_le n (addPartial d.held r src) r D (fun k hk hkh => hadd r k hkh (by omega) hk)
+        omega
+    split
+    · exact ⟨by simpa using hrH, by simpa using hfl⟩
+    · exact ⟨by simpa using hrH, by simpa using hfl⟩
+
+theorem below_tickStep {n thr H i : Nat} {D : List Nat} {d : Node} (hD : D.length < thr) (hb : BelowN n H D d)
+    (hi : i < n → d.up = true → i ∈ D) :
+    BelowN n H D (d.tickStep n thr i).1 ∧ ∀ m ∈ (d.tickStep n thr i).2, H < m.round → m.src < n → m.src ∈ D := by
+  unfold Node.tickStep
+  by_cases hu : d.up = true
+  · simp only [hu, Bool.not_true, Bool.false_eq_true, if_false, Node.broadcast]
+    have h1 : BelowN n H D ((d.setTick d.clock).aggregate n thr i (Gen.bnpRound d.clock d.head)) :=
+      below_aggregate hD (d := d.setTick d.clock) hb i _ (fun _ hin => hi hin hu)
+    have h2 : ∀ m ∈ others n i (Gen.bnpRound d.clock d.head), H < m.round → m.src < n → m.src ∈ D := by
+      intro m hm _ hsn
+      have := (mem_others.mp hm).1
+      rw [this] at hsn ⊢
+      exact hi hsn hu
+    split
+    · exact ⟨h1, h2⟩
+    · exact ⟨h1, h2⟩
+  · simp [hu]; exact hb
+
+theorem below_fireStep {n thr H i : Nat} {D : List Nat} {d : Node} (hD : D.length < thr) (hb : BelowN n H D d)
+    (hi : i < n → d.up = true → i ∈ D) :
+    BelowN n H D (d.fireStep n thr i).1 ∧ ∀ m ∈ (d.fireStep n thr i).2, H < m.round → m.src < n → m.src ∈ D := by
+  unfold Node.fireStep
+  by_cases hu : d.up = true
+  · simp only [hu, Bool.not_true, Bool.false_eq_true, if_false]
+    split
+    · exact ⟨hb, by simp⟩
+    · rename_i r rest _
+      simp only [Node.broadcast]
+      refine ⟨below_aggregate hD (d := d.setPending rest) hb i _ (fun _ hin => hi hin hu), ?_⟩
+      intro m hm _ hsn
+      have := (mem_others.mp hm).1
+      rw [this] at hsn ⊢
+      exact hi hsn hu
+  · simp [hu]; exact hb
+
+theorem below_recvStep {n thr H : Nat} {D : List Nat} {d : Node} (hD : D.length < thr) (hb : BelowN n H D d)
+    (reach : Bool) (m : Msg) (hm : H < m.round → m.src < n → m.src ∈ D) : BelowN n H D (d.recvStep n thr reach m) := by
+  rcases recvStep_cases n thr reach d m with ⟨he, _⟩ | ⟨_, _, _, _, _, he⟩ <;> rw [he]
+  · exact hb
+  · exact below_aggregate hD hb m.src m.round hm
+
+theorem below_act {s : State} {D : List Nat} {H : Nat} (hb : Below s D H) (i : Nat) (F : Node → Node × List Msg)
+    (hu : (F (s.node i)).1.up = (s.node i).up)
+    (h1 : BelowN s.n H D (F (s.node i)).1) (h2 : ∀ m ∈ (F (s.node i)).2, H < m.round → m.src < s.n → m.src ∈ D) :
+    Below (s.act i F) D H := by
+  refine ⟨?_, ?_, ?_⟩
+  · intro k
+    by_cases hk : k = i
+    · subst hk; simpa [act_node] using h1
+    · simpa [act_node, hk] using hb.node k
+  · intro k hkn hku
+    by_cases hk : k = i
+    · subst hk; simp only [act_node, if_true] at hku; exact hb.ups k hkn (hu ▸ hku)
+    · simp only [act_node, hk, if_false] at hku; exact hb.ups k hkn hku
+  · intro m hm
+    simp only [act_msgs, List.mem_append] at hm
+    rcases hm with hm | hm
+    · exact hb.msgs m hm
+    · exact h2 m hm
+
+theorem below_recv {s : State} {D : List Nat} {H : Nat} (hD : D.length < s.thr) (hb : Below s D H) (m : Msg)
+    (hm : H < m.round → m.src < s.n → m.src ∈ D) : Below (s.recv m) D H :=
+  below_act hb m.dst _ (next_recvStep _ _ _ _ _).1 (below_recvStep hD (hb.node m.dst) _ m hm) (by simp)
+
+theorem below_foldl_recv {D : List Nat} {H : Nat} : ∀ (l : List Msg) (s : State), D.length < s.thr → Below s D H →
+    (∀ m ∈ l, H < m.round → m.src < s.n → m.src ∈ D) → Below (l.foldl State.recv s) D H := by
+  intro l
+  induction l with
+  | nil => intro s _ hb _; exact hb
+  | cons a t ih =>
+    intro s hD hb hl
+    simp only [List.foldl_cons]
+    exact ih (s.recv a) hD (below_recv hD hb a (hl a (by simp))) (fun m hm => hl m (by simp [hm]))
+
+private theorem foldl_max_le (f : Nat → Bool) (g : Nat → Nat) (B : Nat) (hg : ∀ x, g x ≤ B) : ∀ (l : List Nat) (acc : Nat),
+    acc ≤ B → l.foldl (fun m j => if f j then max m (g j) else m) acc ≤ B := by
+  intro l
+  induction l with
+  | nil => intro acc h; exact h
+  | cons a t ih =>
+    intro acc h
+    simp only [List.foldl_cons]
+    apply ih
+    have := hg a
+    split <;> omega
+
+theorem below_pull {s : State} {D : List Nat} {H : Nat} (hb : Below s D H) (i : Nat) : Below (s.pull i) D H := by
+  have hmph : s.maxPeerHead i ≤ H := by
+    unfold State.maxPeerHead
+    exact foldl_max_le _ _ H (fun x => (hb.node x).1) _ _ (Nat.zero_le _)
+  have key : ∀ d : Node, d.up = (s.node i).up → BelowN s.n H D d → Below (s.setNode i d) D H := by
+    intro d hu hd
+    refine ⟨?_, ?_, hb.msgs⟩
+    · intro k
+      by_cases hk : k = i
+      · subst hk; simpa using hd
+      · rw [setNode_other _ _ _ _ hk]; exact hb.node k
+    · intro k hkn hku
+      by_cases hk : k = i
+      · subst hk; simp only [setNode_same] at hku; exact hb.ups k hkn (hu ▸ hku)
+      · rw [setNode_other _ _ _ _ hk] at hku; exact hb.ups k hkn hku
+  rcases pull_cases s i with he | he | ⟨_, hlt, v, he⟩ <;> rw [he]
+  · exact hb
+  · exact key _ rfl (hb.node i)
+  · apply key _ (by simp)
+    refine ⟨?_, ?_⟩
+    · simp only [setSync_head, appendTo_head]; omega
+    · intro r k hk
+      simp only [setSync_held, appendTo_held, Bool.and_eq_true] at hk
+      exact (hb.node i).2 r k hk.2
+
+/-- **Below the threshold no new beacon appears.** If fewer than `thr` nodes (the list `D`) can still sign — the
+running ones — and every partial in play for a round above the highest head `H` comes from them, then whatever the
+schedule (any finite list of events without a restart: ticks, catch-up wake-ups, deliveries, losses, syncs, stops,
+partitions, clock advances), no head ever exceeds `H`. This is the safety side needed by C03. -/
+theorem c05_below_threshold_no_progress (D : List Nat) (H : Nat) (evs : List Ev) :
+    ∀ (s : State), D.length < s.thr → Below s D H → (∀ e ∈ evs, ∀ i, e ≠ .restart i) →
+      Below (s.run evs) D H ∧ ∀ i, ((s.run evs).node i).head ≤ H := by
+  induction evs with
+  | nil => intro s _ hb _; exact ⟨hb, fun i => (hb.node i).1⟩
+  | cons e t ih =>
+    intro s hD hb hne
+    have hstep : Below (s.apply e) D H ∧ (s.apply e).thr = s.thr := by
+      cases e with
+      | advance =>
+        refine ⟨⟨fun i => hb.node i, fun i hi hu => hb.ups i hi hu, hb.msgs⟩, rfl⟩
+      | tick i =>
+        have := below_tickStep (n := s.n) (thr := s.thr) (i := i) hD (hb.node i) (fun hin hu => hb.ups i hin hu)
+        exact ⟨below_act hb i _ (next_tickStep _ _ _ _).1 this.1 this.2, rfl⟩
+      | fire i =>
+        have := below_fireStep (n := s.n) (thr := s.thr) (i := i) hD (hb.node i) (fun hin hu => hb.ups i hin hu)
+        exact ⟨below_act hb i _ (next_fireStep _ _ _ _).1 this.1 this.2, rfl⟩
+      | deliver k =>
+        simp only [State.apply]
+        split
+        · rename_i m hm
+          have hmem : m ∈ s.msgs := List.mem_of_getElem? hm
+          have hb' : Below { s with msgs := s.msgs.eraseIdx k } D H :=
+            ⟨hb.node, hb.ups, fun m' hm' => hb.msgs m' ((List.eraseIdx_sublist _ _).subset hm')⟩
+          exact ⟨below_recv (s := { s with msgs := s.msgs.eraseIdx k }) hD hb' m (hb.msgs m hmem), rfl⟩
+        · exact ⟨hb, rfl⟩
+      | drop k =>
+        exact ⟨⟨hb.node, hb.ups, fun m' hm' => hb.msgs m' ((List.eraseIdx_sublist _ _).subset hm')⟩, rfl⟩
+      | deliverAll =>
+        have hb' : Below { s with msgs := [] } D H := ⟨hb.node, hb.ups, by simp⟩
+        refine ⟨below_foldl_recv s.msgs { s with msgs := [] } hD hb' hb.msgs, ?_⟩
+        exact (ext_deliverAll s).thr
+      | pull i => exact ⟨below_pull hb i, (ext_pull s i).thr⟩
+      | stop i =>
+        refine ⟨⟨?_, ?_, hb.msgs⟩, rfl⟩
+        · intro k
+          by_cases hk : k = i
+          · subst hk
+            simp only [State.apply, State.stop, setNode_same]
+            exact ⟨(hb.node k).1, by simp⟩
+          · simp only [State.apply, State.stop]; rw [setNode_other _ _ _ _ hk]; exact hb.node k
+        · intro k hkn hku
+          by_cases hk : k = i
+          · subst hk; simp [State.apply, State.stop] at hku
+          · simp only [State.apply, State.stop] at hku; rw [setNode_other _ _ _ _ hk] at hku; exact hb.ups k hkn hku
+      | restart i => exact absurd rfl (hne _ (by simp) i)
+      | setConn c => exact ⟨⟨hb.node, hb.ups, hb.msgs⟩, rfl⟩
+    exact ih (s.apply e) (by rw [hstep.2]; exact hD) hstep.1 (fun e' he' => hne e' (by simp [he']))
+
 end Drand.Net
